@@ -9,8 +9,11 @@ in the module by the column accessors of the same name, the registered scalar fu
 * `possign` and `account_sortkey` read `context.tables['accounts'].types` (a dict subscript, outside the fragment) in
   their first statement; that statement must have exactly this shape (checked structurally) and is replaced by a
   parameter `account_types` taking the place of `context`; the rest of the body is translated.
-* every other plain function of the registry is attempted and reported (translated as `envx_<name>` without a theorem,
-  or skipped with the translator's reason); `date_bin` (while True) is outside the fragment.
+* `date_bin_str` (BQL date_bin on a string stride) calls `interval` and `date_bin`: they stay opaque callables (refs table),
+  the theorem assumes they behave as their models; `findfirst`'s loop over sorted(values) is tied by induction.
+* the other C18 functions (C18_EXTRA) are attempted and reported (translated as `envx_<name>` without a theorem, or skipped
+  with the translator's reason); `date_bin` (while True) is outside the fragment; ledger/inventory/metadata functions of the
+  registry are other properties' ground and only listed.
 
 Library calls / attribute reads / non-int operators become primitives whose semantics is Model/PrimsEnv.v."""
 import ast
@@ -31,10 +34,10 @@ PRIMS = ('builtins.int', 'builtins.str', 'builtins.bool', 'builtins.abs', 'built
 REQUIRED = ['year', 'month', 'day', 'yearmonth', 'quarter', 'weekday_', 'date_diff', 'date_add', 'date_trunc',
             'date_part', 'date_from_ymd', 'date_', 'int_', 'decimal_', 'str_', 'bool_', 'neg', 'abs_', 'safediv',
             'round_', 'length', 'substr', 'splitcomp', 'maxwidth', 'upper', 'lower', 'root', 'parent', 'leaf',
-            'grep', 'grepn', 'subst', 'joinstr', 'possign', 'account_sortkey']
+            'grep', 'grepn', 'subst', 'joinstr', 'possign', 'account_sortkey', 'findfirst', 'date_bin_str']
 CONTEXT_TAIL = ('possign', 'account_sortkey')
 # C18 functions without a theorem here: attempted and reported
-C18_EXTRA = ('findfirst', 'interval', 'date_bin', 'date_bin_str', 'parse_date', 'repr_', 'today')
+C18_EXTRA = ('interval', 'date_bin', 'parse_date', 'repr_', 'today')
 
 _last_report = {}
 
